@@ -819,3 +819,19 @@ def replay_hex_escapes(viol):
         cases.append(("atom_codes(A, [0'a, %d, 0'b]), writeq(A), nl" % cp, "'a\\x%x\\b'" % cp))
         cases.append(("atom_codes(A, [%d]), writeq(f(A)), nl" % cp, "f('\\x%x\\')" % cp))
     return run_cases("", cases, {"model": viol}, "C55", "hex_escapes", batch=True)
+
+
+def replay_canonical(viol):
+    """write_canonical: no operator notation, no list/curly sugar beyond the standard, quoted"""
+    cases = [("X is 1 rdiv 3, write_canonical(X), nl", "rdiv(1,3)"),
+             ("X is -7 rdiv 2, write_canonical(f(X)), nl", "f(rdiv(-7,2))"),
+             ("write_canonical(1+2*3), nl", "+(1,*(2,3))"),
+             ("write_canonical(- (1)), nl", "-(1)"),
+             ("write_canonical((a:-b)), nl", ":-(a,b)"),
+             ("write_canonical(f(x,-)), nl", "f(x,-)"),
+             ("write_canonical({a}), nl", "{}(a)"),
+             ("write_canonical('A b'), nl", "'A b'"),
+             ("X is 4 rdiv 2, write_canonical(X), nl", "2"),
+             ("X is 1 rdiv 3, writeq(X), nl", "1 rdiv 3"),
+             ("X is 1 rdiv 3, write_term(X, [ignore_ops(true)]), nl", "rdiv(1,3)")]
+    return run_cases("", cases, {"model": viol}, "C55", "canonical", batch=True)
